@@ -87,6 +87,43 @@ VAR_DECLS = ["var PkgCounter = tr.Add(40, 2)", "const PkgConst = 7", "type PkgT 
 BYSTANDERS["BPkgLevel"] = ["return []int{PkgCounter, PkgConst, PkgT{1}.M()}"]
 
 
+# ---- round 3 of seeded changes ----
+# one inner loop VALUE run once per outer iteration (the optimiser drops the Delay around a loop that is the first statement of a
+# loop body): an inner iteration yields, a later one breaks synchronously after the resume, a later run ends by its condition
+# right after a non-yielding iteration; then code after the loops yields.  State kept per For value instead of per run shows here.
+GENS["Rounds"] = ["i := 0", "lim := []int{5, 3}", "lt := func(a, b int) bool { tr.U(7, a*100+b); return a < b }",
+                  "for r := 0; r < len(lim); r++ {", "\tfor lt(i, lim[r]) {", "\t\ttr.U(8, i)", "\t\tif i%3 == 1 {", "\t\t\ti++", "\t\t\tbreak", "\t\t}",
+                  "\t\tif i%3 == 0 {", "\t\t\tYIELD(i)", "\t\t}", "\t\ti++", "\t}", "}", "tr.E(9)", "YIELD(99)", "tr.E(10)", "RETURN"]
+GENS["Rounds3"] = ["i := 0", "lim := []int{4, 2, 9}", "lt := func(a, b int) bool { tr.U(7, a*100+b); return a < b }",
+                   "for r := 0; r < len(lim); r++ {", "\tfor lt(i, lim[r]) {", "\t\ttr.U(8, i)", "\t\tif i%3 == 1 {", "\t\t\ti++", "\t\t\tbreak", "\t\t}",
+                   "\t\tif i%3 == 0 {", "\t\t\tYIELD(i)", "\t\t}", "\t\ti++", "\t}", "}", "YIELD(98)", "RETURN"]
+# a closure over a nil interface receiver: the nil dereference belongs to the CALL of the closure (second advance), not to the
+# place where the closure is written (first advance)
+GENS["NilIfaceRecv"] = ["var s tr.Src", "more := func() bool { return s.More() }", "YIELD(7)", "for more() {", "\tYIELD(1)", "}", "RETURN"]
+GENS["NilPtrRecvOnce"] = ["var c *tr.Counter", "more := func() bool { return c.More() }", "YIELD(7)", "if more() {", "\tYIELD(2)", "}", "RETURN"]
+# the operand of `return <expr>` is evaluated (its value is dropped): a call-free operand that panics must still panic
+GENS["ReturnOperandIndex"] = {
+    "co": ["xs := make([]Iter[int], 2)", "i := 3", "YIELD(len(xs))", "if tr.C(1) {", "\treturn xs[i]", "}", "YIELD(-1)", "RETURN"],
+    "ref": ["xs := make([]refco.Iter, 2)", "i := 3", "YIELD(len(xs))", "if tr.C(1) {", "\t_ = xs[i]", "\treturn", "}", "YIELD(-1)", "RETURN"]}
+GENS["ReturnOperandField"] = {
+    "co": ["type chain struct{ rest Iter[int] }", "var c *chain", "YIELD(1)", "if tr.C(1) {", "\treturn c.rest", "}", "YIELD(-1)", "RETURN"],
+    "ref": ["type chain struct{ rest refco.Iter }", "var c *chain", "YIELD(1)", "if tr.C(1) {", "\t_ = c.rest", "\treturn", "}", "YIELD(-1)", "RETURN"]}
+# YieldFrom evaluates its operand once: the delegate replaces the field it was read from while delegation is under way
+GENS["FieldDelegate"] = {
+    "co": ["type box struct{ cur Iter[int] }", "x := &box{}", "var mk func(base int, next Iter[int]) Iter[int]",
+           "mk = func(base int, next Iter[int]) Iter[int] {", "\tYield(base)", "\tx.cur = next", "\tYield(base + 1)", "\treturn nil", "}",
+           "x.cur = mk(10, mk(20, nil))", "YIELDFROM(x.cur)", "YIELD(99)", "RETURN"],
+    "ref": ["type box struct{ cur refco.Iter }", "x := &box{}", "var mk func(base int, next refco.Iter) refco.Iter",
+            "mk = func(base int, next refco.Iter) refco.Iter {", "\treturn refco.New(func(y2 *refco.Y) {", "\t\ty2.Yield(base)", "\t\tx.cur = next", "\t\ty2.Yield(base + 1)", "\t})", "}",
+            "x.cur = mk(10, mk(20, nil))", "YIELDFROM(x.cur)", "YIELD(99)", "RETURN"]}
+GENS["FieldRange"] = {
+    "co": ["type box struct{ cur Iter[int] }", "x := &box{}", "var mk func(base int, next Iter[int]) Iter[int]",
+           "mk = func(base int, next Iter[int]) Iter[int] {", "\tYield(base)", "\tx.cur = next", "\tYield(base + 1)", "\treturn nil", "}",
+           "x.cur = mk(10, mk(20, nil))", "for v := range x.cur {", "\tYIELD(v)", "}", "YIELD(99)", "RETURN"],
+    "ref": ["type box struct{ cur refco.Iter }", "x := &box{}", "var mk func(base int, next refco.Iter) refco.Iter",
+            "mk = func(base int, next refco.Iter) refco.Iter {", "\treturn refco.New(func(y2 *refco.Y) {", "\t\ty2.Yield(base)", "\t\tx.cur = next", "\t\ty2.Yield(base + 1)", "\t})", "}",
+            "x.cur = mk(10, mk(20, nil))", "for it := x.cur; it.MoveNext(); {", "\tv := it.Current()", "\tYIELD(v)", "}", "YIELD(99)", "RETURN"]}
+
 def render(mode, pkg="oc"):
     """mode: 'co' (input of the compiler) or 'ref' (reference rendering on refco)."""
     out = ["package %s" % pkg, ""]
@@ -101,13 +138,13 @@ def render(mode, pkg="oc"):
         if mode == "co":
             out.append("func %s() Iter[int] {" % name)
             for l in lines:
-                out.append("\t" + l.replace("YIELD(", "Yield(").replace("RETURN", "return nil"))
+                out.append("\t" + l.replace("YIELDFROM(", "YieldFrom(").replace("YIELD(", "Yield(").replace("RETURN", "return nil"))
             out.append("}")
         else:
             out.append("func %s() refco.Iter {" % name)
             out.append("\treturn refco.New(func(y *refco.Y) {")
             for l in lines:
-                out.append("\t\t" + l.replace("YIELD(", "y.Yield(").replace("RETURN", "return"))
+                out.append("\t\t" + l.replace("YIELDFROM(", "y.YieldFrom(").replace("YIELD(", "y.Yield(").replace("RETURN", "return"))
             out.append("\t})")
             out.append("}")
         out.append("")
